@@ -77,7 +77,8 @@ def corruptions(rng, schema, k=3):
         s = copy.deepcopy(schema)
         target = _follow(s, path)
         if kind == 'unknown_rule':
-            target['no_such_rule'] = 1
+            # the unknown name need not be a string
+            target[rng.choice(['no_such_rule', 'no_such_rule', 'no such rule', 7, None, ('type',), 1.5, True])] = 1
         elif kind == 'unknown_type':
             target['type'] = rng.choice(['no_such_type', ['string', 'no_such_type'], [['string', 'integer']], [1], ['string', 2]])
         elif kind == 'unknown_name':
